@@ -1,6 +1,6 @@
 """C01 - Declarative queries return what Python evaluation of the same expression returns."""
 import json
-import vlib, c01_lib as L, c01_harness as H, c01_join as J
+import vlib, c01_lib as L, c01_harness as H, c01_join as J, c01_coll as C
 from vlib import Corr, Search, Failure
 
 ID = 'C01'
@@ -18,6 +18,10 @@ TRUSTED = [
     'None-free rows, against CPython eval of the query source',
     'the wf side condition of the tie (every operator node mentions the loop variable; a sub-expression without it is evaluated by Python and arrives as ONE '
     'parameter: that evaluation is property C04) is enforced by the generators, not by the theorem',
+    'hand-written models Model/C01Join.v (FROM / LEFT JOIN section, relational join semantics, object-graph reading of paths) and Model/C01Coll.v (subquery shapes of '
+    'QuerySetMonad / AttrSetMonad contains, nonzero, negate, count; EXISTS / IN / NOT IN / COUNT(DISTINCT) semantics; object-graph reading of the atoms): tied on every run '
+    'structurally on four providers (FROM section, subquery join condition, inner conditions, IS NOT NULL checks, columns) and semantically by comparing whole result lists '
+    'of real SQLite on a fixed object graph with sql_join_rows / sql_coll_rows of the model',
 ]
 ASSUMPTIONS = [
     'None rules: None operand of arithmetic / string op / len / abs / min / max -> None; comparison (incl. in / not in) with a None operand -> unknown; '
@@ -28,19 +32,24 @@ ASSUMPTIONS = [
     'attribute paths through to-one relationships (p.group.number, p.group.dept.name; schema P -> G -> D with Optional references): primary keys unique; the '
     'reference follows references over the object graph with None propagation (strict Python raises AttributeError on None.attr unless short-circuited); the primary key '
     'column of a joined table and the foreign key column it is joined on are identified by the harness (the translator uses either, pk-only joins)',
+    'conditions over a to-many collection (g.members = Set(P), queries over G; Model/C01Coll.v): the atoms exists(m for m in g.members if c) / g.members / their negations, '
+    'v [not] in (m.a for m in g.members if c), v [not] in g.members.a, not (v in (...)), scalar conditions mentioning count(m for m in g.members if c), joined by `and`; '
+    'reference: the members are the P objects whose group is g; a None element of the collection never matches, a None left operand makes the comparisons unknown; primary '
+    'keys of P are distinct integers; one count-subquery per condition; len(g.members) / count(g.members) (the LEFT JOIN + GROUP BY + HAVING form) and sum / min / max / avg over a collection are not modelled',
     'and / or results are read as truth values (Python returns an operand; Pony a boolean): a selected `a and b` over non-boolean operands is outside the fragment',
     'startswith / endswith / `in` / `not in` on strings have their own model, theorem (C01_like: any string needle - literal, parameter, attribute, expression - '
     'and haystack, non-NULL) and ties (Model/C01Like.v); outside the theorems, covered by the differential search only: upper / lower, between, comparison of '
-    'conditions, NULL operands of the LIKE family; slices: C25; not covered at all here: several `for` clauses, to-many collections, subqueries, aggregates, GROUP BY, ordering, dates, Decimal, float, JSON, '
+    'conditions, NULL operands of the LIKE family; slices: C25; not covered at all here: several `for` clauses, aggregates (other than the count-subquery of the collection fragment), GROUP BY, ordering, dates, Decimal, float, JSON, '
     'arrays, hybrid methods, lambdas / generators (decompiler: C03), row decoding of entities',
 ]
 RULE = ('structural: all 1330 depth<=2 expressions over a 14-leaf alphabet (sampled in the quick tier) + sampled depth-3 combinations + seeded random typed '
         'expressions of depth 2..5 + hand-made shapes, each on 4 providers, as filter and/or projection; semantic: the same expressions on real SQLite over a fixed '
         'table (None / negative / zero / positive, empty / non-empty); non-trivial = an expression with at least one operator whose translation was compared; '
-        'distinct = distinct (provider, mode, query text)')
+        'distinct = distinct (provider, mode, query text); join and collection queries: hand-made shapes + seeded random queries (1-2 atoms, inner conditions of depth <= 3) '
+        'on 4 providers and on real SQLite over fixed object graphs (groups with 0..4 members, None among member values and among g\'s own)')
 
-QUICK = dict(join_queries=40, join_search=150, like_random=60, n_random=240, n_enum=300, n_depth3=60, sem_random=90, sem_enum=110, sem_depth3=30, rows=6, search_random=260, search_ext=160)
-THOROUGH = dict(join_queries=500, join_search=3000, like_random=600, n_random=2500, n_enum=1330, n_depth3=500, sem_random=600, sem_enum=700, sem_depth3=200, rows=14, search_random=4000, search_ext=3000)
+QUICK = dict(coll_queries=30, coll_search=150, join_queries=40, join_search=150, like_random=60, n_random=240, n_enum=300, n_depth3=60, sem_random=90, sem_enum=110, sem_depth3=30, rows=6, search_random=260, search_ext=160)
+THOROUGH = dict(coll_queries=400, coll_search=3000, join_queries=500, join_search=3000, like_random=600, n_random=2500, n_enum=1330, n_depth3=500, sem_random=600, sem_enum=700, sem_depth3=200, rows=14, search_random=4000, search_ext=3000)
 
 
 def sizes(ctx, deep=False):
@@ -84,17 +93,24 @@ def correspondence(ctx):
     disagreements += r_dis
     dist['reference'] = r_dist
     dist['sqlite_version'] = __import__('sqlite3').sqlite_version
+    # the Coq evaluations of the sections run in the background while the next section's cases are generated
+    from concurrent.futures import ThreadPoolExecutor
+    pool = ThreadPoolExecutor(max_workers=4)
+    exprs = s_exprs + m_exprs + r_exprs
+    meta = s_meta + m_meta + r_meta
+    main_fut = pool.submit(H.run_bools, ctx, exprs, prelude=real.prelude(), jobs=6)
 
     # (4) the LIKE family: structural tie of StringMixin._like, matcher vs real SQLite, py_like vs Python
     like_real = H.RealDb(L.like_rows())
     k_exprs, k_meta, k_dis, k_nontriv, k_dist = H.like_cases(ctx, H.like_inputs(ctx, z.get('like_random', 60)), like_real)
     disagreements += k_dis
     dist['like'] = k_dist
-    k_bad = H.run_bools(ctx, k_exprs, name='like', prelude=like_real.prelude())
-    for i in k_bad[:10]:
-        m = k_meta[i]
-        disagreements.append({'what': 'model and implementation differ (%s): %s' % (m['mode'], m.get('query')), 'input': {k: v for k, v in m.items() if k not in ('impl',)},
-                              'impl': m.get('impl', m.get('impl_kept')), 'coq_case': k_exprs[i][:1500]})
+    k_fut = pool.submit(H.run_bools, ctx, k_exprs, name='like', prelude=like_real.prelude(), jobs=3)
+    def like_report(k_bad):
+        for i in k_bad[:10]:
+            m = k_meta[i]
+            disagreements.append({'what': 'model and implementation differ (%s): %s' % (m['mode'], m.get('query')), 'input': {k: v for k, v in m.items() if k not in ('impl',)},
+                                  'impl': m.get('impl', m.get('impl_kept')), 'coq_case': k_exprs[i][:1500]})
 
     # (5) attribute paths through to-one relationships: FROM / conditions / columns on four providers, result lists on real SQLite
     graph = J.standard_graph()
@@ -102,15 +118,29 @@ def correspondence(ctx):
     j_exprs, j_meta, j_dis, j_nontriv, j_dist = J.join_cases(ctx, J.gen_queries(ctx, z.get('join_queries', 40)), jreal)
     disagreements += j_dis
     dist['join'] = j_dist
-    j_bad = H.run_bools(ctx, j_exprs, name='join', header=J.JOIN_HEADER, prelude='Definition DB := %s.\n' % J.coq_db(graph))
-    for i in j_bad[:10]:
-        m = j_meta[i]
-        disagreements.append({'what': 'model and implementation differ (%s): %s' % (m['mode'], m['query']), 'input': {k: v for k, v in m.items() if k != 'impl'},
-                              'impl': m['impl'], 'coq_case': j_exprs[i][:1500]})
+    j_fut = pool.submit(H.run_bools, ctx, j_exprs, name='join', header=J.JOIN_HEADER, prelude='Definition DB := %s.\n' % J.coq_db(graph), jobs=3)
+    def join_report(j_bad):
+        for i in j_bad[:10]:
+            m = j_meta[i]
+            disagreements.append({'what': 'model and implementation differ (%s): %s' % (m['mode'], m['query']), 'input': {k: v for k, v in m.items() if k != 'impl'},
+                                  'impl': m['impl'], 'coq_case': j_exprs[i][:1500]})
 
-    exprs = s_exprs + m_exprs + r_exprs
-    meta = s_meta + m_meta + r_meta
-    bad = H.run_bools(ctx, exprs, prelude=real.prelude())
+    # (6) conditions over a to-many collection: subquery shapes on four providers, result lists on real SQLite
+    cgraph = C.coll_graph()
+    creal = J.RealGraph(cgraph)
+    c_exprs, c_meta, c_dis, c_nontriv, c_dist = C.coll_cases(ctx, C.gen_queries(ctx, z.get('coll_queries', 30)), creal)
+    disagreements += c_dis
+    dist['collection'] = c_dist
+    c_bad = H.run_bools(ctx, c_exprs, name='coll', header=C.COLL_HEADER, prelude='Definition DB := %s.\n' % C.coq_db(cgraph), jobs=2)
+    for i in c_bad[:10]:
+        m = c_meta[i]
+        disagreements.append({'what': 'model and implementation differ (%s): %s' % (m['mode'], m['query']), 'input': {k: v for k, v in m.items() if k != 'impl'},
+                              'impl': m['impl'], 'coq_case': c_exprs[i][:1500]})
+
+    like_report(k_fut.result())
+    join_report(j_fut.result())
+    bad = main_fut.result()
+    pool.shutdown()
     for i in bad[:20]:
         m = meta[i]
         kind = 'structural' if i < len(s_exprs) else ('semantic (real SQLite vs qeval DSqlite)' if i < len(s_exprs) + len(m_exprs) else 'reference semantics')
@@ -119,8 +149,8 @@ def correspondence(ctx):
     if s_meta: samples.append({'structural': s_meta[len(s_meta) // 2]})
     if m_meta: samples.append({'semantic': m_meta[len(m_meta) // 2]})
     samples.append({'coq_case': exprs[len(exprs) // 3][:600]})
-    dist['cases'] = {'structural': len(s_exprs), 'semantic': len(m_exprs), 'reference': len(r_exprs), 'like': len(k_exprs), 'join': len(j_exprs)}
-    return Corr(cases=len(exprs) + len(k_exprs) + len(j_exprs), nontrivial=len(s_nontriv) + len(m_nontriv) + len(k_nontriv) + len(j_nontriv), disagreements=disagreements, samples=samples, distribution=dist,
+    dist['cases'] = {'structural': len(s_exprs), 'semantic': len(m_exprs), 'reference': len(r_exprs), 'like': len(k_exprs), 'join': len(j_exprs), 'collection': len(c_exprs)}
+    return Corr(cases=len(exprs) + len(k_exprs) + len(j_exprs) + len(c_exprs), nontrivial=len(s_nontriv) + len(m_nontriv) + len(k_nontriv) + len(j_nontriv) + len(c_nontriv), disagreements=disagreements, samples=samples, distribution=dist,
                 note='every case is a boolean computed by vm_compute inside Coq from the model and the serialised implementation output')
 
 
@@ -158,6 +188,9 @@ def search(ctx, deep):
     jreal = J.RealGraph(J.standard_graph())
     j_evals, j_fail, j_nontriv, j_dist = J.join_search(ctx, J.gen_queries(ctx, z.get('join_search', 150)), jreal)
     evals += j_evals; failures += j_fail; nontriv |= j_nontriv; dist['join'] = j_dist
+    creal = J.RealGraph(C.coll_graph())
+    c_evals, c_fail, c_nontriv, c_dist = C.coll_search(ctx, C.gen_queries(ctx, z.get('coll_search', 150), search=True), creal)
+    evals += c_evals; failures += c_fail; nontriv |= c_nontriv; dist['collection'] = c_dist
     dist['inputs'] = {'corpus': len([1 for i in inputs if i[2] == 'corpus']), 'total': len(inputs)}
     samples = [{'query': 'select(p for p in P if %s)' % L.src(inputs[len(inputs) // 2][0]), 'params': inputs[len(inputs) // 2][1]}]
     return Search(evaluations=evals, failures=failures, nontrivial=len(nontriv), samples=samples, distribution=dist, exhaustive=False)
@@ -165,6 +198,7 @@ def search(ctx, deep):
 
 def replay(ctx, data):
     if 'join' in data: return J.replay_join(data['join'])
+    if 'coll' in data: return C.replay_coll(data['coll'])
     return H.replay_sqlite(data)
 
 
@@ -175,8 +209,11 @@ LEVEL_TEXT = ('Machine-checked proof (Coq 8.16.1, structural induction on the ex
               'selected expressions have Python\'s values, lifted to result lists with DISTINCT = set semantics; on the explicit complement of five recorded defect classes '
               '(floor division / modulo / true division of integers, a None value tested for truth below `not`, conditions as comparison operands) that are refuted by '
               'witnesses. The model is compared node for node with the real translator on four providers on every run; the SQLite semantics is validated against the '
-              'linked SQLite; an end-to-end differential search on real SQLite also covers LIKE / upper / lower / slices / between.')
-LEVEL_NOTE = ('Partial: joins over several loop variables, to-many collections, subqueries, aggregates, GROUP BY, ordering, dates, Decimal / float, JSON, arrays, hybrid methods, lambdas and generator '
+              'linked SQLite; an end-to-end differential search on real SQLite also covers LIKE / upper / lower / slices / between. Further theorems with their own models, ties '
+              'and searches: the LIKE family (C01_like), attribute paths through Optional to-one references with the FROM / LEFT JOIN section (C01_left_join_rows, '
+              'C01_select_join_rows), and conditions over a to-many collection - EXISTS / NOT EXISTS, IN / NOT IN subqueries with the IS NOT NULL checks, COUNT(DISTINCT pk) '
+              'scalar subqueries, correlated inner conditions (C01_collection_atom, C01_collection_rows) - each stated except for recorded, refuted defects.')
+LEVEL_NOTE = ('Partial: joins over several loop variables, collection conditions other than the exists / in / count atoms (len(g.members) with GROUP BY / HAVING, sum / min / max over a collection, nested collections), whole-query aggregates, GROUP BY, ordering, dates, Decimal / float, JSON, arrays, hybrid methods, lambdas and generator '
               'objects (decompiler), entity row decoding are outside the theorem and outside this check. Trusted: Coq kernel + vm_compute; the hand-written translation '
               'model (tied structurally on every run); documentation models of PostgreSQL / MySQL (nothing executes there); the reference reading of None written from '
               'the property statement.')
